@@ -43,9 +43,10 @@ CHECKS = {
         technique="Lean 4 proof: Tree tables built from one dfs pass answer every upward query exactly as the root-first chain dictates (induction over the dfs stream / chains) + differential correspondence vs real pyoak.tree.Tree",
         text="Theorems (every tree, unbounded): membership, parent info = actual storage position, ancestors = parent chain, "
              "absolute/relative depth, ValueError for non-ancestors, KeyError for foreign nodes, first ancestor of type, "
-             "get_xpath = spelling of the chain; NoRepeat shown necessary by a decide-checked counterexample. Correspondence: "
+             "get_xpath = spelling of the chain, string-level injective (no two nodes share one: xpath_injective) and followable from the root "
+             "(follow_getXpath); NoRepeat shown necessary by a decide-checked counterexample. Correspondence: "
              "all queries on all nodes / sampled pairs / content-identical foreign twins on seeded trees, plus an oracle that "
-             "get_xpath values are pairwise distinct and can be followed from the root (that clause is exploration, not yet a theorem).",
+             "get_xpath values are pairwise distinct and can be followed from the root.",
         note="Trusted: Lean kernel + 3 standard axioms; dict-keyed-by-node = map keyed by object identity under the "
              "statement's precondition (all nodes registered => distinct ids); hand-written model of tree.py tied by correspondence.",
         design="5/C06"),
@@ -53,11 +54,11 @@ CHECKS = {
         technique="Lean 4 proof: bottom-up matcher over Tree tables = top-down documented semantics `sat` (reversal theorem), findall worklist sound/complete/duplicate-free w.r.t. `sat` + differential correspondence (parse, findall, find, match on every node) vs real ASTXpath",
         text="Theorems (every tree without repeated objects, every element list): match(root, n) computed from the Tree tables = sat(chain of n); "
              "findall yields exactly (and once) the positions whose chain satisfies sat; find = head of findall; hence n in findall iff match. "
-             "The parser (text -> elements, all index digits significant, whitespace) is modelled and compared with the real lark-based "
-             "parser on every generated text but not yet proved against a renderer (partial). Correspondence compares elements, findall order, "
+             "Parser: parseXPath (lexer with maximal munch, recursive descent, transformer walk) returns exactly the denoted elements for every rendering of every "
+             "well-formed path with arbitrary whitespace between tokens (parseXPath_render, all index digits significant, relative = leading //). Correspondence compares elements, findall order, "
              "find and match for every node on seeded trees with tuples up to 14 and derived + random + mutated xpaths.",
         note="Trusted: Lean kernel + 3 axioms; lark's LALR/contextual lexer re-modelled by hand; dict de-duplication keyed by object identity; "
-             "model tied to /repo by correspondence only. Partial: no parse_render theorem.",
+             "model tied to /repo by correspondence only (the lark grammar is re-modelled by hand).",
         design="5/C07"),
     "C03": dict(
         technique="Lean 4 proof: registry state machine (id assignment, detach, replace, duplicate, _deserialize, weak-value gc) preserves the invariant by induction over operation histories, for an arbitrary digest function + op-by-op differential correspondence with the real NODE_REGISTRY",
